@@ -33,10 +33,13 @@ def create_md_parser(
     # TODO warn if linkify required and linkify-it-py not installed
     # (currently the parse will unceremoniously except)
 
+    # the word count plugin divides by the reading speed
+    per_minute = max(config.words_per_minute, 1)
+
     if config.commonmark_only:
         # see https://spec.commonmark.org/
         md = MarkdownIt("commonmark", renderer_cls=renderer).use(
-            wordcount_plugin, per_minute=config.words_per_minute
+            wordcount_plugin, per_minute=per_minute
         )
         md.options.update({"myst_config": config})
         return md
@@ -50,7 +53,7 @@ def create_md_parser(
             .enable("table")
             .use(tasklists_plugin, enabled=config.enable_checkboxes)
             .enable("linkify")
-            .use(wordcount_plugin, per_minute=config.words_per_minute)
+            .use(wordcount_plugin, per_minute=per_minute)
         )
         md.options.update({"linkify": True, "myst_config": config})
         return md
@@ -62,7 +65,7 @@ def create_md_parser(
         .use(myst_block_plugin)
         .use(myst_role_plugin)
         .use(footnote_plugin, inline=False, move_to_end=False, always_match_refs=True)
-        .use(wordcount_plugin, per_minute=config.words_per_minute)
+        .use(wordcount_plugin, per_minute=per_minute)
     )
 
     typographer = False
